@@ -437,4 +437,89 @@ func ruleDepth(c *Ctx) {
 		}
 		c.check(len(miss) == 0, "unwind", in.Pos(), "frame, localArrays, arrays and the callee's stack slots are restored before the callee's result (value, error, next/exit) is examined", "after the nested execute "+strings.Join(miss, ", ")+" not restored before the result is examined: an error or next/exit raised in a callee leaves the interpreter inconsistent")
 	}
+	// each call gets its own array mapping: what is pushed on localArrays is storage allocated for this call
+	// (it stays on the stack of mappings while callees run, so it must not be a re-slice of a buffer they reuse)
+	allInstrs(ex, func(in ssa.Instruction) {
+		name, val := interpFieldStore(in)
+		if name != "localArrays" {
+			return
+		}
+		call, ok := val.(*ssa.Call)
+		if !ok {
+			return
+		}
+		if b, ok := call.Call.Value.(*ssa.Builtin); !ok || b.Name() != "append" || len(call.Call.Args) != 2 {
+			return
+		}
+		// the appended element: stored into the variadic backing array
+		var elem ssa.Value
+		if sl, ok := call.Call.Args[1].(*ssa.Slice); ok {
+			if al, ok := sl.X.(*ssa.Alloc); ok {
+				if refs := al.Referrers(); refs != nil {
+					for _, r := range *refs {
+						if ia, ok := r.(*ssa.IndexAddr); ok {
+							if irefs := ia.Referrers(); irefs != nil {
+								for _, ir := range *irefs {
+									if st, ok := ir.(*ssa.Store); ok && st.Addr == ssa.Value(ia) {
+										elem = st.Val
+									}
+								}
+							}
+						}
+					}
+				}
+			}
+		}
+		if elem == nil {
+			c.undecided("frame-fresh", in.Pos(), "the value pushed on localArrays could not be identified")
+			return
+		}
+		// trace to its bases
+		var bases []string
+		seen := map[ssa.Value]bool{}
+		var walk func(v ssa.Value)
+		walk = func(v ssa.Value) {
+			if seen[v] {
+				return
+			}
+			seen[v] = true
+			switch x := v.(type) {
+			case *ssa.Phi:
+				for _, e := range x.Edges {
+					walk(e)
+				}
+			case *ssa.Call:
+				if b, ok := x.Call.Value.(*ssa.Builtin); ok && b.Name() == "append" {
+					walk(x.Call.Args[0])
+					return
+				}
+				bases = append(bases, "result of "+x.Call.Value.Name())
+			case *ssa.Const:
+				bases = append(bases, "nil")
+			case *ssa.MakeSlice:
+				bases = append(bases, "make")
+			case *ssa.Slice:
+				if n := interpFieldLoad(x.X); n != "" {
+					bases = append(bases, "re-slice of p."+n)
+					return
+				}
+				walk(x.X)
+			default:
+				if n := interpFieldLoad(v); n != "" {
+					bases = append(bases, "p."+n)
+					return
+				}
+				bases = append(bases, v.String())
+			}
+		}
+		walk(elem)
+		okFresh := len(bases) > 0
+		for _, b := range bases {
+			if b != "nil" && b != "make" {
+				okFresh = false
+			}
+		}
+		c.check(okFresh, "frame-fresh", in.Pos(), "the array mapping pushed for a call starts from nil/make: it is this call's own storage",
+			"the array mapping pushed on localArrays for a call is built on "+strings.Join(bases, ", ")+", not on storage of its own: a nested or recursive call reuses the same backing array and overwrites the caller's mapping, so after the callee returns the caller's array parameters name the callee's arrays")
+	})
 }
